@@ -91,6 +91,7 @@ class InterpCore(object):
         self.path_conds = []
         self.sticky_conds = []
         self.assumption_fns = []
+        self.divisions = []       # (denominator RF, line, function label) of every true division evaluated
         self.float_as_frac = True
         self.hooks = {}           # fq name -> python callable(interp, args, kwargs) overriding a repo function
 
@@ -356,6 +357,7 @@ class InterpCore(object):
             if isinstance(op, ast.Mult):
                 return Num(x * y, inex)
             if isinstance(op, ast.Div):
+                self.divisions.append((y, getattr(node, "lineno", None), self.stack[-1].label if self.stack else "?"))
                 return Num(x / y, True)
             if isinstance(op, ast.Pow):
                 return Num(ep.pow_(x, y), inex or y.as_const() is None or y.as_const().denominator != 1 or y.as_const() < 0)
